@@ -56,6 +56,9 @@ type C20Params struct {
 	Withdrawn []string         `json:"withdrawn,omitempty"`
 	Faults    []simrt.NetFault `json:"faults,omitempty"`
 	Token     bool             `json:"github_token"`
+	// Retry: when the first run left the executable alone, the command is run once more in the same environment
+	// (same HOME and TMPDIR), against the same catalogue and without faults
+	Retry bool `json:"retry,omitempty"`
 	Plan      simrt.Plan       `json:"plan"`
 }
 
@@ -224,7 +227,7 @@ func genC20(t *rapid.T, tier string) (*World, any) {
 			return &r.Assets[len(r.Assets)-1]
 		}
 		// assets for other platforms are always there
-		for _, other := range []string{"darwin_arm64", "windows_amd64", "linux_arm64", platSuffix + "p32"} {
+		for _, other := range []string{"darwin_arm64", "windows_amd64", "linux_arm64", platSuffix + "p32", runtime.GOOS + "_386", runtime.GOOS + "_arm"} {
 			if chance(t, 60, "other") {
 				a := mk("crs-toolchain_"+ver+"_"+other+".tar.gz", "tar.gz")
 				sums = append(sums, sha256hex(buildArchive(a, "crs-toolchain"))+"  "+a.Name)
@@ -306,6 +309,7 @@ func genC20(t *rapid.T, tier string) (*World, any) {
 		p.Faults = append(p.Faults, simrt.NetFault{Nth: n, Kind: pick(t, []string{"http403", "http404", "http500", "transport", "cut", "flip"}, "fault-kind")})
 	}
 	p.Plan = drawPlan(t, "plan", false)
+	p.Retry = chance(t, 35, "retry")
 	return w, p
 }
 
@@ -406,10 +410,8 @@ func evalC20(sc *Scenario, sim *Sim) ([]Violation, bool, string) {
 			machinery("install exe: %v", err)
 		}
 	}
-	before, _ := os.ReadFile(sb.Path(exe))
 	routes, served := renderCatalogue2(p.Releases, p.Withdrawn)
 	plan := p.Plan
-	plan.Net = &simrt.NetPlan{Routes: routes, Faults: p.Faults}
 	st := Step{Argv: []string{"self-update"}, Cwd: "work", Plan: plan, ExePath: exe, Version: p.Running}
 	if p.Running == "" {
 		st.Version = ""
@@ -422,10 +424,46 @@ func evalC20(sc *Scenario, sim *Sim) ([]Violation, bool, string) {
 		}
 		st.Env["GITHUB_TOKEN"] = "ghp_simulated"
 	}
+	var viol []Violation
+	var origTags []string
+	for ri := range p.Releases {
+		origTags = append(origTags, p.Releases[ri].Tag)
+	}
+	attempts := 1
+	if p.Retry {
+		attempts = 2
+	}
+	key := ""
+	for attempt := 0; attempt < attempts; attempt++ {
+		for ri := range p.Releases {
+			p.Releases[ri].Tag = origTags[ri]
+		}
+		faults := p.Faults
+		if attempt > 0 {
+			faults = nil
+			sim.Stats.probe("second-attempt")
+		}
+		plan.Net = &simrt.NetPlan{Routes: routes, Faults: faults}
+		st.Plan = plan
+		var changed bool
+		viol, changed, key = c20Judge(sb, sim, &p, st, exe, routes, served, faults, attempt, viol)
+		if changed || len(viol) > 0 {
+			break
+		}
+	}
+	return viol, len(p.Releases) > 0, key + string(sc.Params)
+}
+
+// c20Judge runs self-update once and judges what it did to the executable.
+func c20Judge(sb *Sandbox, sim *Sim, p *C20Params, st Step, exe string, routes []simrt.Route, served map[int][]byte, faults []simrt.NetFault, attempt int, viol []Violation) ([]Violation, bool, string) {
+	before, _ := os.ReadFile(sb.Path(exe))
 	r := sb.Run(st)
 	after, _ := os.ReadFile(sb.Path(exe))
-	var viol []Violation
 	add := func(what, msg, detail string) {
+		if attempt > 0 {
+			what += "/second-run-in-the-same-environment"
+			msg = "second run (same HOME and TMPDIR, same catalogue, no faults) after a run that installed nothing: " + msg
+		}
 		cat, _ := json.MarshalIndent(p.Releases, "", " ")
 		var reqs []string
 		for _, e := range r.Trace {
@@ -434,7 +472,7 @@ func evalC20(sc *Scenario, sim *Sim) ([]Violation, bool, string) {
 			}
 		}
 		viol = append(viol, Violation{Prop: "C20", Oracle: "install-safety", Sig: "C20/install-safety/" + what, Msg: msg,
-			Detail: detail + fmt.Sprintf("\nrunning version: %q, exit %d\nrequests: %s\nfaults: %+v\nstderr: %s\ncatalogue: %s", p.Running, r.Exit, strings.Join(reqs, " | "), p.Faults, clip(r.Stderr), clip2(cat, 3000))})
+			Detail: detail + fmt.Sprintf("\nrunning version: %q, exit %d\nrequests: %s\nfaults: %+v\nstderr: %s\ncatalogue: %s", p.Running, r.Exit, strings.Join(reqs, " | "), faults, clip(r.Stderr), clip2(cat, 3000))})
 	}
 	faultFired := false
 	for _, e := range r.Trace {
@@ -586,9 +624,6 @@ func evalC20(sc *Scenario, sim *Sim) ([]Violation, bool, string) {
 			add(what, "the executable was replaced by bytes that are not a newer, checksum-verified asset for this platform ("+what+")", fmt.Sprintf("installed bytes start with: %q", clip2(after, 120)))
 		case faultFired:
 			// a flipped or cut body can never carry the recorded digest
-			for _, f := range p.Faults {
-				_ = f
-			}
 			_ = c
 		}
 		if r.Exit != 0 {
@@ -619,7 +654,7 @@ func evalC20(sc *Scenario, sim *Sim) ([]Violation, bool, string) {
 	}
 	// leftovers next to the executable do not matter; files elsewhere must not appear
 	key := fmt.Sprintf("%s|%d|%v|%v", p.Running, len(p.Releases), p.Faults, changed)
-	return viol, len(p.Releases) > 0, key + string(sc.Params)
+	return viol, changed, key
 }
 
 func init() {
